@@ -82,6 +82,55 @@ fn record_profile(out: &mut Out, game: &tree::G, strat: &Strategies<String, Stri
             }
         }
     }
+    // internal iteration: the same listing must come out when the iterators are consumed by the adaptors that are built
+    // on fold / count / last / nth instead of next() (a second, fresh pair of iterators)
+    for (pl, outer) in strat.as_named().into_iter().enumerate() {
+        let names: Vec<&String> = dump.infos[pl].iter().map(|i| &i.infoset).collect();
+        let mut single_names: Vec<&String> = dump.singles[pl].iter().map(|(i, _)| i).collect();
+        single_names.sort();
+        out.line(&json!({"e": "reset2", "player": pl + 1, "names": names, "ns": single_names.len(),
+            "pos": (0..dump.infos[pl].len()).map(|i| {
+                let at: usize = dump.infos[pl][..i].iter().map(|x| x.actions.len()).sum();
+                dense[pl][at..at + dump.infos[pl][i].actions.len()].iter().map(|p| *p > 0.0).collect::<Vec<_>>()
+            }).collect::<Vec<_>>()}));
+        events += 1;
+        let mut k = 0usize;
+        let mut seen_outer: Vec<String> = Vec::new();
+        outer.for_each(|(info, inner)| {
+            seen_outer.push(info.clone());
+            let multi = dump.infos[pl].iter().position(|i| &i.infoset == info);
+            let acts: Vec<String> = match multi {
+                Some(ix) => dump.infos[pl][ix].actions.clone(),
+                None => dump.singles[pl].iter().filter(|(i, _)| i == info).map(|(_, a)| a.clone()).collect(),
+            };
+            let ix_of = |a: &String| acts.iter().position(|x| x == a).map_or(0, |i| i + 1);
+            let which = multi.map_or(0, |i| i + 1);
+            let ev = match k % 4 {
+                0 => json!({"e": "consumed", "i": which, "via": "count", "n": inner.count()}),
+                1 => {
+                    let js: Vec<usize> = inner.fold(Vec::new(), |mut v, (a, _)| {
+                        v.push(ix_of(a));
+                        v
+                    });
+                    json!({"e": "consumed", "i": which, "via": "fold", "js": js})
+                }
+                2 => json!({"e": "consumed", "i": which, "via": "last", "j": inner.last().map_or(0, |(a, _)| ix_of(a))}),
+                _ => {
+                    let mut it = inner;
+                    let first = it.nth(0).map_or(0, |(a, _)| ix_of(a));
+                    let rest: Vec<usize> = it.map(|(a, _)| ix_of(a)).collect();
+                    json!({"e": "consumed", "i": which, "via": "nth", "j": first, "js": rest})
+                }
+            };
+            out.line(&ev);
+            k += 1;
+        });
+        events += k;
+        let nmulti = dump.infos[pl].len();
+        out.line(&json!({"e": "oconsumed", "n": strat.as_named().into_iter().nth(pl).unwrap().count(),
+            "multi": seen_outer.iter().take(nmulti).collect::<Vec<_>>(), "singles": seen_outer.len().saturating_sub(nmulti)}));
+        events += 1;
+    }
     // round trip
     let back = game.from_named(strat.as_named());
     let ok = match back {
